@@ -38,12 +38,18 @@ LastTok == toks[Len(toks)]
 \* an input that ends with the header of a block-form @insert("n") is unterminated (see MC_Parser)
 EndsWithBlockInsert == LET n == Len(toks) - 1 IN n >= 4 /\ toks[n - 3].t = "INSERT" /\ toks[n - 2].t = "LPAREN" /\ toks[n - 1].t = "STR" /\ toks[n].t = "RPAREN"
                                                  /\ toks[n + 1].t = "EOF"
+\* more generally: the header of a block-form insert, or a component use followed at once by a slot body, after which no
+\* @end comes any more
+NoEndAfter(k) == \A j \in (k + 1)..Len(toks) : toks[j].t \notin {"END", "ELSE", "ELSE_IF"}      \* (the parser lets any closer end such a body)
+Hdr(k, ts) == k + Len(ts) - 1 <= Len(toks) /\ \A j \in 1..Len(ts) : toks[k + j - 1].t = ts[j]
+NeverClosed == \E k \in 1..Len(toks) : \/ (Hdr(k, <<"INSERT", "LPAREN", "STR", "RPAREN">>) /\ NoEndAfter(k + 3))
+                                        \/ (Hdr(k, <<"COMPONENT", "LPAREN", "STR", "RPAREN", "SLOT">>) /\ NoEndAfter(k + 4))
 ErrTags == (IF done /\ LastTok.t = "ILLEGAL" /\ Len(LastTok.lit) = 1 /\ LastTok.s = LastTok.e /\ ~(Ch(LastTok.s) \in {34, 39})
                THEN {"illegal-byte"} ELSE {})
       \cup (IF done /\ LastTok.t = "ILLEGAL" /\ Ch(LastTok.s) \in {34, 39} THEN {"unterminated-string"} ELSE {})
       \cup (IF done /\ LastTok.t = "ILLEGAL" /\ Ch(LastTok.s) = 123 THEN {"unterminated-comment"} ELSE {})
       \cup (IF done /\ LastTok.t = "EOF" /\ ~html THEN {"open-code"} ELSE {})
-      \cup (IF done /\ (Count({"IF", "EACH", "FOR"}) > Count({"END"}) \/ EndsWithBlockInsert) THEN {"open-block"} ELSE {})
+      \cup (IF done /\ (Count({"IF", "EACH", "FOR"}) > Count({"END"}) \/ EndsWithBlockInsert \/ NeverClosed) THEN {"open-block"} ELSE {})
 MustErr == ErrTags # {}
 SetToSeq_(S) == LET RECURSIVE F(_) F(X) == IF X = {} THEN <<>> ELSE LET x == CHOOSE x \in X : TRUE IN <<x>> \o F(X \ {x}) IN F(S)
 
